@@ -391,7 +391,7 @@ func c13Explore(src *choice.Src) *core.Result {
 	}
 	// the logs keep growing while clients run: every client's view of the log it is shown moves forward,
 	// so that concurrent lookups of one client carry different heads
-	for i, ng := 0, src.Weighted(2, 2, 2, 1); i < ng; i++ {
+	for i, ng := 0, src.Weighted(2, 2, 2, 1, 1, 1, 1); i < ng; i++ {
 		step := src.Range(1, 150)
 		r.s.At(step, func() {
 			for _, c := range w.Clients {
